@@ -296,7 +296,7 @@ class C12(Spec):
     outside = ["more than n states per machine; layouts beyond single / linear / diamond / mix-in with one overriding redefinition"]
 
     def jobs(self, tier):
-        n = 3 if tier == "quick" else 4
+        n = 3 if tier == "quick" else 5
         j = [dict(kind="flags", layout=l, n=(n if l in ("single", "linear", "linear-override", "linear-shadow", "mixin-shadow", "mixin") else 4 if tier != "quick" else 3)) for l in LAYOUTS]
         if tier == "quick":
             j = [dict(kind="flags", layout=l, n=3) for l in ("single", "linear", "linear-override", "linear-shadow", "mixin-shadow", "mixin")] + \
